@@ -29,4 +29,28 @@ CLAIMS = {
                      '(finally, atomicity), alias-vs-copy provenance, '
                      'agreement of reaction and kind tables',
     },
+    'C15': {
+        'text': 'Decides structural clauses of C15 on every path of the '
+                'validator: an error line in the report always clears the '
+                'verdict and the verdict decides the exit status '
+                '(reachability on the CFG); every attribute, group and '
+                'dataset required by doc/.../biom-2.1.rst is one whose '
+                'absence is reported; duplicate/blank id rejection rests on '
+                'a value aggregated over all ids of an axis (JSON rows / '
+                'columns, HDF5 ids dataset contents); sparse coordinates '
+                'have exact lower and upper tests against the dimension of '
+                'their own axis; shape is cross-checked with rows/columns/ids '
+                'on the right index; record validators (id, metadata '
+                'object-or-null) are applied to every record; every key '
+                'Table.from_json reads is required by the validator. '
+                'Necessary conditions only: acceptance of every written '
+                'file and loadability of every accepted file depend on '
+                'runtime values and are not decided.',
+        'note': 'Trusted: python ast; the .rst specification text; h5py '
+                'membership semantics ("name in group").',
+        'technique': 'static analysis: CFG reachability (report => invalid), '
+                     'agreement of validator tables with the parsed '
+                     'specification, aggregate-dataflow and bounds-shape '
+                     'rules over the AST',
+    },
 }
